@@ -111,6 +111,32 @@ def accessor_aliasing_case(col, schedule, chunk):
                              f"(tracked: {sorted(ref_post)}); values unchanged: { {k: bool(np.array_equal(again[k], ref_post[k])) for k in again if k in ref_post} }", "input": inp})
 
 
+def continued_sampling_case(col, chunk):
+    """ONE results object across continued sampling (it is a live view onto the engine's chains): accessors used, a further posterior epoch appended and
+    sampled, accessors used again on the same object - they report the new epoch too, and agree with a results object fetched afterwards"""
+    import liesel.goose as gs
+    from rtc.fixtures import mk_cfg
+    schedule = [(0, 1, 1), (3, 4, 1), (4, 4, 2)]
+    eng = make_engine(schedule, chunk, 2, 2)
+    eng.sample_all_epochs()
+    res = eng.get_results()
+    n1 = np.asarray(res.get_posterior_samples()["p0"]).shape[1]
+    t1 = np.asarray(jax.tree_util.tree_leaves(res.get_posterior_transition_infos())[0]).shape[1]
+    try:
+        gs.Summary(res)
+    except Exception:
+        pass
+    eng.append_epoch(mk_cfg(4, 8, 2))
+    eng.sample_next_epoch()
+    again = {k: np.asarray(v) for k, v in res.get_posterior_samples().items()}
+    t2 = np.asarray(jax.tree_util.tree_leaves(res.get_posterior_transition_infos())[0]).shape[1]
+    fresh = {k: np.asarray(v) for k, v in eng.get_results().get_posterior_samples().items()}
+    ok = n1 == 2 and t1 == 4 and again["p0"].shape[1] == 6 and t2 == 12 and all(np.array_equal(again[k], fresh[k]) for k in fresh)
+    col.add(None if ok else {"sig": "native::chain::accessors_after_continued_sampling", "what": f"posterior epochs (4, thinning 2) + (8, thinning 2): the results object obtained before the second epoch reports "
+                             f"{again['p0'].shape[1]} posterior draws and {t2} posterior transition infos after it was sampled (stored: 6 and 12; a fresh results object: {fresh['p0'].shape[1]})",
+                             "input": {"schedule": schedule + [(4, 8, 2)], "chunk": chunk}})
+
+
 class ClockKernel(RecordingKernel):
     """key-ignoring kernel whose proposal reads the epoch clock: x = 1000 * epoch index + within-epoch time of the transition"""
 
@@ -207,6 +233,7 @@ def bounded(tier, seed):
         [(0, 1, 1), (4, 6, 1), (4, 6, 3)],
         [(0, 1, 1), (3, 4, 2), (4, 6, 2), (4, 6, 2)],  # two posterior epochs with EQUAL configs
         [(0, 1, 1), (1, 4, 1), (1, 4, 1), (4, 4, 1)],  # two warmup epochs with equal configs
+        [(0, 1, 1), (1, 4, 1), (3, 10, 4), (4, 8, 4)],  # a thinned warmup epoch whose length is NOT a multiple of its thinning, then the same thinning again
     ]
     if tier != "quick":
         for _ in range(12):
@@ -238,6 +265,12 @@ def bounded(tier, seed):
         except Exception as e:
             col.add({"sig": f"native::chain::exception::{type(e).__name__}", "what": str(e)[:200], "input": {"schedule": s, "scenario": "accessor aliasing"}})
         n_cases += 1
+    for ch in (2, 4):
+        try:
+            continued_sampling_case(col, ch)
+        except Exception as e:
+            col.add({"sig": f"native::chain::exception::{type(e).__name__}", "what": str(e)[:200], "input": {"scenario": "accessors across continued sampling", "chunk": ch}})
+        n_cases += 1
     # the same storage rule when a kernel asks for the tuning history (thinned warmup epochs of every type, incl. BURNIN)
     for s in ([(0, 1, 1), (3, 6, 3), (4, 6, 2)], [(0, 1, 1), (1, 4, 2), (3, 8, 4), (2, 8, 2), (4, 4, 4)]):
         engine_case(col, s, 2, 2, 2, store_ks=False, needs_history=(True, False))
@@ -256,7 +289,7 @@ def bounded(tier, seed):
         "distinct_nontrivial": n_cases + (150 if tier == "quick" else 5000),
         "rule": (f"BOUNDED: ListEpochChain.append on seeded random chunk partitions (thinning 1..5, <= 24 states); real Engine with counting kernels (x += 1 per "
                  f"iteration) on {len(scheds)} schedules x chunk sizes dividing the durations (quick: smallest and largest), 2 chains, 2 kernels - stored positions, "
-                 "posterior accessors, transition-info and kernel-state counts, equality across chunk sizes; accessors after the caller edited a returned dict / built a Summary with deselected keys (one stored chunk and several); two schedules with thinned FAST / BURNIN / SLOW epochs and a kernel that needs the tuning history; a clock-reading kernel (x = 1000*epoch + time in epoch) for every chunk size dividing the durations; builder runs for included/excluded keys and tracked shapes. "
+                 "posterior accessors, transition-info and kernel-state counts, equality across chunk sizes; accessors of ONE results object before and after a further posterior epoch was appended and sampled; accessors after the caller edited a returned dict / built a Summary with deselected keys (one stored chunk and several); two schedules with thinned FAST / BURNIN / SLOW epochs and a kernel that needs the tuning history; a clock-reading kernel (x = 1000*epoch + time in epoch) for every chunk size dividing the durations; builder runs for included/excluded keys and tracked shapes. "
                  f"seed={seed}"),
         "samples": [{"schedule": scheds[0], "chunks": [1, 6]}, {"included": ["q"], "excluded": ["p1"]}],
         "exhaustive": False,
